@@ -67,15 +67,20 @@ where
         newc: Rc<dyn Constraint<U, E>>,
     ) -> Vec<Rc<dyn Constraint<U, E>>> {
         let mut dropped = Vec::new();
+        let mut redundant = false;
         if let Some(tree_newc) = newc.downcast_ref::<DisequalityConstraint<U, E>>() {
             let mut normalized = HashSet::new();
             for storec in self.0.drain() {
                 // All non-subsumable constraints are always carried along
                 if let Some(tree_storec) = storec.downcast_ref::<DisequalityConstraint<U, E>>() {
-                    if !tree_storec.subsumes(tree_newc) && !tree_newc.subsumes(tree_storec) {
+                    if tree_storec.subsumes(tree_newc) {
+                        // The new constraint is implied by a stored one, which is kept.
+                        redundant = true;
                         normalized.insert(storec);
-                    } else {
+                    } else if tree_newc.subsumes(tree_storec) {
                         dropped.push(storec);
+                    } else {
+                        normalized.insert(storec);
                     }
                 } else {
                     normalized.insert(storec);
@@ -83,7 +88,11 @@ where
             }
             self.0 = normalized;
         }
-        self.insert(newc);
+        if redundant {
+            dropped.push(newc);
+        } else {
+            self.insert(newc);
+        }
         dropped
     }
 
